@@ -517,19 +517,19 @@ MagicCases(f) ==
 MapFormatsSig == IF Quick THEN <<"anm", "msg">> ELSE ScriptFormats
 MapFormatsOther == IF Quick THEN <<"anm", "ecl">> ELSE ScriptFormats
 MapCases ==
-    FlattenSeq([i \in 1..Len(MapFormatsSig) |-> EveryKth(SigCases(MapFormatsSig[i]), IF Quick THEN 2 ELSE 1)])
+    FlattenSeq([i \in 1..Len(MapFormatsSig) |-> EveryKth(SigCases(MapFormatsSig[i]), IF Quick THEN 3 ELSE 1)])
     \o FlattenSeq([i \in 1..Len(MapFormatsOther) |->
         IntrinsicCases(MapFormatsOther[i]) \o SectionCases(MapFormatsOther[i]) \o MagicCases(MapFormatsOther[i])])
 
 \* Tiers.  thorough = the whole domain.  quick = the whole domain for ANM (the format whose
 \* language supports every construct used here), and a fixed-stride sample of it for the others;
-\* the strides 3 and 5 are coprime to the number of positions (14) and of slots per defect
+\* the strides 3 and 9 are coprime to the number of positions (14) and of slots per defect
 \* (28 / 41), so every defect still meets positions of every residue.  No randomness anywhere.
 Stride(f, kind) ==
     IF ~Quick THEN 1
     ELSE CASE f = "anm" -> (IF kind = "expr" THEN 3 ELSE 1)
            [] f = "ecl" -> (IF kind = "item" THEN 1 ELSE 3)
-           [] OTHER -> 5
+           [] OTHER -> 9
 
 AllCases ==
     FlattenSeq([i \in 1..Len(ScriptFormats) |->
